@@ -439,6 +439,17 @@ func (g *Gen) hintAt(f *Frame, r retInfo, h *Clause, fn *ssa.Function, bindTop f
 			}
 		}
 	}
+	// the function's store iterator (if it has exactly one): the enumeration pseudo-variables are in scope at the return
+	if len(g.kvIters) == 1 {
+		for en, ki := range g.kvIters {
+			if _, live := r.st.cells[ki.cell]; live {
+				env.cellVars["iterpos"] = ki.cell
+				env.vars["rangekeys"] = Val{Sort: "Enum", Term: en}
+				env.vars["rangecount"] = Val{Sort: "Int", Term: ki.cnt}
+				env.vars["rangeinv"] = Val{Sort: "Func", Term: ki.inv}
+			}
+		}
+	}
 	if ct := g.contract; ct != nil {
 		if note := g.bindRenamed(env, ct, []*Clause{h}, paramSet); note != "" {
 			g.notes = append(g.notes, fmt.Sprintf("hint %s: %s", h.Label, note))
@@ -607,6 +618,7 @@ func basePrelude(concrete bool) string {
 		b.WriteString("(define-fun str_sub ((a Str) (i Int) (n Int)) Str (str.substr a i n))\n")
 		b.WriteString("(define-fun str_byte ((a Str) (i Int)) Int (str.to_code (str.at a i)))\n")
 		b.WriteString("(define-fun str_empty () Str \"\")\n")
+		b.WriteString("(define-fun str_prefixof ((p Str) (s Str)) Bool (str.prefixof p s))\n")
 	} else {
 		b.WriteString("(declare-sort Str 0)\n")
 		b.WriteString("(declare-fun str_cat (Str Str) Str)\n")
@@ -620,6 +632,8 @@ func basePrelude(concrete bool) string {
 		b.WriteString("(assert (forall ((s Str)) (! (=> (= (str_len s) 0) (= s str_empty)) :pattern ((str_len s)))))\n")
 		b.WriteString("(assert (forall ((s Str)) (! (= (str_cat str_empty s) s) :pattern ((str_cat str_empty s)))))\n")
 		b.WriteString("(assert (forall ((s Str)) (! (= (str_cat s str_empty) s) :pattern ((str_cat s str_empty)))))\n")
+		b.WriteString("(declare-fun str_prefixof (Str Str) Bool)\n")
+		b.WriteString("(assert (forall ((p Str) (x Str)) (! (str_prefixof p (str_cat p x)) :pattern ((str_cat p x)))))\n")
 	}
 	return b.String()
 }
